@@ -448,10 +448,17 @@ type vdrFileCache struct {
 func getArgsToFilesMap(fileArgs map[string]map[Nodable]struct{},
 	outs LazyArgumentMap,
 	debug bool, fqname string) map[string]map[string]struct{} {
+	return getTypedArgsToFilesMap(fileArgs, outs, nil, nil, debug, fqname)
+}
+
+// Like getArgsToFilesMap, where outs is known to be of struct type t.
+func getTypedArgsToFilesMap(fileArgs map[string]map[Nodable]struct{},
+	outs LazyArgumentMap, t syntax.Type, lookup *syntax.TypeLookup,
+	debug bool, fqname string) map[string]map[string]struct{} {
 	argToFiles := make(map[string]map[string]struct{}, len(fileArgs))
 	// Get the set of files each argument refers to.
 	for arg := range fileArgs {
-		for _, name := range getMaybeFileNames(outs.jsonPath(arg)) {
+		for _, name := range getMaybeFileNames(outs.typedJsonPath(arg, t, lookup)) {
 			for _, fullName := range getLogicalFileNames(name) {
 				fileSet := argToFiles[arg]
 				if fileSet == nil {
@@ -587,9 +594,9 @@ func (self *Fork) cacheParamFileMap(outs LazyArgumentMap) {
 	if outs == nil {
 		return
 	}
-	argToFiles := getArgsToFilesMap(
+	argToFiles := getTypedArgsToFilesMap(
 		self.fileArgs,
-		outs,
+		outs, self.outsType(), self.node.top.types,
 		self.node.top.rt.Config.Debug,
 		self.node.GetFQName())
 	// Remove "file" args which don't actually refer to existing files.
